@@ -119,6 +119,10 @@ Definition fast_read (w : N) (page : bytes) (n : N) : option (list N) :=
   | _ => None
   end.
 
+(* the view is SIGNED ('int%i' % bit_width): what a stored index of k bytes comes back as *)
+Definition signed_view (k : nat) (v : N) : Z :=
+  if v <? 2 ^ (8 * N.of_nat k - 1) then Z.of_N v else (Z.of_N v - 2 ^ (8 * Z.of_nat k))%Z.
+
 Definition run_idec (d : idec) (w : N) (page : bytes) (n : N) : option (list N) :=
   match d with
   | DFast => fast_read w page n
